@@ -56,6 +56,14 @@ Proof. reflexivity. Qed.
 Lemma ready_to_read_applied : ready_to_read_uses_last_applied = true.
 Proof. reflexivity. Qed.
 
+(* x_request / ReqLQ refuse whenever the slot is occupied ([x_outcome]: Some _ => busy), whatever the
+   occupant's deadline: accepted_without_result_is_referenced needs it (an overwritten occupant is
+   referenced by nothing); fresh_key rests on key generators seeded per incarnation *)
+Lemma single_slot_busy : single_slot_busy_unconditional = true.
+Proof. reflexivity. Qed.
+Lemma key_seed_per_incarnation : proposal_key_seed_per_incarnation = true.
+Proof. reflexivity. Qed.
+
 (* every table method the model treats as ONE step is one critical section
    (Lock; defer Unlock at the top) in the source *)
 Definition modelled_atomic : list string :=
